@@ -36,15 +36,10 @@ class GraphConfigImpl:
         Generate relative path for a node
         """
 
-        generic_class = getattr(node, '__generic_class__', None)
+        while getattr(node, '__generic_class__', None) is not None:
+            node = node.__generic_class__
 
-        if generic_class is None:
-            file_path = '/'.join(node.__module__.split('.'))
-
-        else:
-            file_path = '/'.join(generic_class.__module__.split('.'))
-            node = generic_class
-
+        file_path = '/'.join(node.__module__.split('.'))
         line_number = inspect.getsourcelines(node)[-1]
         return f'{file_path}.py#L{line_number}'
 
